@@ -1,4 +1,4 @@
-\* the real channel capacities 5 / 5
+\* after the probing with channel capacities 3 (at most 4 items flow per file in this model, so 3 is the largest capacity that still blocks)
 SPECIFICATION Spec
 CONSTANTS
   Floor = 1024
@@ -6,8 +6,8 @@ CONSTANTS
   InitSize = 10240
   HardCap = 1073741824
   BoundFloor = 1048576
-  SendCap = 5
-  AckCap = 5
+  SendCap = 3
+  AckCap = 3
   MaxBufs = {40960}
   Modes = {"bin"}
   Protos = {4}
